@@ -28,6 +28,7 @@ func init() {
 	ruleText["R15.9"] = "getVarDependencies stores nothing outside its own locals (same analysis as C05/R05.6): no dependency set is remembered across variables in a map or field supplied by the caller"
 	ruleText["R15.10"] = "in the function looping over its []*node roots to collect their declarations, every call of a function reaching getVarDependencies is outside all loops and receives the slice accumulated over the roots"
 	ruleText["R15.11"] = "in gta, the block executed after a successful importSrc assigns scope.types = universe.types before any statement that can leave the block (whatever the form of the import)"
+	ruleText["R15.12"] = "in every block guarded by a successful (*itype).lookupMethod whose result is stored in node.val, each assignment of node.action assigns a constant that getVarDependencies compares node.action with (producer/consumer agreement on how a method reference is recognised)"
 	ruleText["R15.8"] = "in the defineStmt and defineXStmt cases of gta no in-package resolving call assigns the pass's named error result (cfgErrorf excepted) and the node is appended to the revisit list"
 	ruleText["R15.4"] = "the function collecting the dependencies of a package variable handles function symbols (refers to funcSym): dependencies that pass through function bodies are followed"
 }
@@ -48,6 +49,7 @@ func runC15(c *Config, r *Report) {
 	c15R8(ic, r)
 	c15R10(ic, r)
 	c15R11(ic, r)
+	c15R12(ic, r)
 	// R15.9: the dependency collector recomputes its answer for each variable
 	pureFuncs(ic, r, "R15.9", []string{"getVarDependencies"}, 1, "recomputed-for-each-variable",
 		"the variables reached through a function body depend on where the walk entered a cycle of mutually recursive functions (the function being visited is skipped), so a result remembered for one variable is incomplete for the next one: its initializer is ordered before a variable it reads through the other function and sees the zero value", false)
@@ -686,6 +688,35 @@ func c15R6(ic *IC, r *Report) {
 		r.Errorf("R15.6: the selection statement is not inside a loop")
 		return
 	}
+	// every scan over the candidates starts at the first one: an index loop bounded by the
+	// length of a []*node begins at the constant 0 (a range loop always does)
+	ast.Inspect(fi.Decl.Body, func(n ast.Node) bool {
+		fs, ok := n.(*ast.ForStmt)
+		if !ok || fs.Cond == nil {
+			return true
+		}
+		be, ok := unparen(fs.Cond).(*ast.BinaryExpr)
+		if !ok || be.Op != token.LSS {
+			return true
+		}
+		c, ok := unparen(be.Y).(*ast.CallExpr)
+		if !ok || !isBuiltinCall(ic.Info, c, "len") || len(c.Args) != 1 {
+			return true
+		}
+		if t := ic.Info.TypeOf(c.Args[0]); t == nil || types.TypeString(t, nil) != "[]*github.com/traefik/yaegi/interp.node" {
+			return true
+		}
+		fromZero := false
+		if as, ok := fs.Init.(*ast.AssignStmt); ok && len(as.Rhs) == 1 {
+			if tv, ok := ic.Info.Types[as.Rhs[0]]; ok && tv.Value != nil && tv.Value.ExactString() == "0" {
+				fromZero = true
+			}
+		}
+		if !fromZero {
+			bad = append(bad, "the scan at "+ic.pos(fs.Pos())+" over "+types.ExprString(c.Args[0])+" does not start at its first element")
+		}
+		return true
+	})
 	r.Check(len(bad) == 0, "R15.6", "genGlobalVarDecl/earliest-ready-first", ic.pos(sels[0].Pos()), "after a variable is selected the scan over the pending variables is left (and restarted)",
 		"after a variable has been appended to the initialisation order the same scan continues with the variables declared after it ("+strings.Join(bad, "; ")+"): a variable declared earlier that has just become ready is initialised after them, e.g. var a = c; var b = ..; var c = ..; var d = .. runs b c d a where the Go specification requires b c a d")
 }
@@ -1151,5 +1182,109 @@ func c15R11(ic *IC, r *Report) {
 	})
 	if n == 0 {
 		r.Errorf("R15.11: no `if ... = interp.importSrc(...); err == nil` found in gta")
+	}
+}
+
+// c15R12: the dependency collector recognises a reference to an interpreted method by the
+// action of the selector node (the constants it compares node.action with). The compiler must
+// therefore tag every selector it resolves to an interpreted method with one of those actions,
+// whatever the form of the reference (t.m, p.m, the method expression T.m): in each block
+// guarded by a successful (*itype).lookupMethod whose result is stored in the node's val, every
+// assignment of the node's action assigns a constant the collector tests, and there is one.
+func c15R12(ic *IC, r *Report) {
+	info := ic.Info
+	col := ic.F["getVarDependencies"]
+	if col == nil || col.Decl.Body == nil {
+		r.Errorf("anchor not resolved: getVarDependencies")
+		return
+	}
+	actionFld := ic.field("node", "action")
+	valFld := ic.field("node", "val")
+	accepted := map[string]bool{}
+	ast.Inspect(col.Decl.Body, func(n ast.Node) bool {
+		be, ok := n.(*ast.BinaryExpr)
+		if !ok || be.Op != token.EQL || selField(info, be.X) != actionFld {
+			return true
+		}
+		if id := identOf(be.Y); id != nil {
+			if c, ok := info.Uses[id].(*types.Const); ok {
+				accepted[c.Name()] = true
+			}
+		}
+		return true
+	})
+	if len(accepted) == 0 {
+		r.Errorf("R15.12: the dependency collector compares node.action with no constant (method references are expected to be recognised by their action)")
+		return
+	}
+	n := 0
+	for _, name := range sortedKeys(ic.F) {
+		fi := ic.F[name]
+		if fi.Decl.Body == nil {
+			continue
+		}
+		idx := 0
+		ast.Inspect(fi.Decl.Body, func(m ast.Node) bool {
+			ifs, ok := m.(*ast.IfStmt)
+			if !ok {
+				return true
+			}
+			as, ok := ifs.Init.(*ast.AssignStmt)
+			if !ok || len(as.Rhs) != 1 || len(as.Lhs) == 0 {
+				return true
+			}
+			c, ok := unparen(as.Rhs[0]).(*ast.CallExpr)
+			if !ok || !isCallTo(info, c, "interp.itype.lookupMethod", "interp.itype.lookupMethod2") {
+				return true
+			}
+			mid, ok := as.Lhs[0].(*ast.Ident)
+			if !ok {
+				return true
+			}
+			mobj := info.ObjectOf(mid)
+			stores := false
+			var actions []*ast.AssignStmt
+			ast.Inspect(ifs.Body, func(k ast.Node) bool {
+				a, ok := k.(*ast.AssignStmt)
+				if !ok || len(a.Lhs) != 1 || len(a.Rhs) != 1 {
+					return true
+				}
+				if selField(info, a.Lhs[0]) == valFld {
+					if rid := identOf(a.Rhs[0]); rid != nil && info.ObjectOf(rid) == mobj {
+						stores = true
+					}
+				}
+				if selField(info, a.Lhs[0]) == actionFld {
+					actions = append(actions, a)
+				}
+				return true
+			})
+			if !stores {
+				return true
+			}
+			idx++
+			n++
+			var bad []string
+			for _, a := range actions {
+				ok := false
+				if id := identOf(a.Rhs[0]); id != nil {
+					if c, isC := info.Uses[id].(*types.Const); isC && accepted[c.Name()] {
+						ok = true
+					}
+				}
+				if !ok {
+					bad = append(bad, types.ExprString(a.Lhs[0])+" = "+types.ExprString(a.Rhs[0])+" at "+ic.pos(a.Pos()))
+				}
+			}
+			if len(actions) == 0 {
+				bad = append(bad, "no assignment of the node's action")
+			}
+			r.Check(len(bad) == 0, "R15.12", fmt.Sprintf("%s/interpreted-method-reference#%d/tagged-for-the-collector", name, idx), ic.pos(ifs.Pos()), "the selector is tagged with an action the dependency collector tests",
+				name+" resolves a selector to an interpreted method and "+strings.Join(bad, ", ")+", while the dependency collector recognises method references by node.action in {"+strings.Join(sortedKeys(accepted), ", ")+"}: the body of a method referenced in that form (e.g. the method expression T.m) is not followed, so a package variable it reads can be initialised after the variable whose initializer calls it")
+			return true
+		})
+	}
+	if n == 0 {
+		r.Errorf("R15.12: no block resolving a selector to an interpreted method (lookupMethod result stored in node.val) found")
 	}
 }
